@@ -147,7 +147,7 @@ func c02RequiredEKU(r *Run, fn *ssa.Function, leaf string, vi []ssa.Instruction)
 			return "ok"
 		},
 		Want:    map[string]func(*Run, *ssa.Return) (bool, string){"list non-empty, no leaf EKU in it": wantErr(true)},
-		Unreach: map[string][]ssa.Instruction{"list non-empty, no leaf EKU in it": vi}, Reach: map[string][]ssa.Instruction{"ok": vi},
+		Unreach: map[string][]ssa.Instruction{"list non-empty, no leaf EKU in it": vi}, Reach: map[string][]ssa.Instruction{"ok": vi[:1]}, // vi[0] is the call of Verify; the rest are returns that admit without it
 		Shared: map[string]bool{"ok": true},
 	})
 	var setKeys []string
